@@ -197,7 +197,7 @@ fn field_of<S: Serialize>(s: &S, name: &'static str) -> Option<Vec<u64>> {
 }
 
 fn internals_of<S: Serialize>(s: &S) -> Value {
-    guard(|| serde_json::to_value(s).unwrap_or(Value::Null)).unwrap_or(Value::Null)
+    guard(|| crate::tojson::to_json(s)).unwrap_or(Value::Null)
 }
 
 // ---------------------------------------------------------------- trees
